@@ -76,6 +76,7 @@ func (l lgLock) coq() string {
 type lgHeld struct {
 	l lgLock
 	w bool
+	d bool // a deferred release is pending
 }
 
 func lgBool(b bool) string {
@@ -99,6 +100,7 @@ type lgSite struct {
 	held          []lgHeld
 	facts         [][2]*lgNode
 	pre           []lgHeld
+	undeferred    []lgHeld
 }
 
 // ---- (b) contract ------------------------------------------------------------------------------
@@ -219,7 +221,7 @@ func genLocks(r *Repo) (string, error) {
 		if i == len(in.sites)-1 || i%chunk == chunk-1 {
 			sep = "\n]."
 		}
-		fmt.Fprintf(&b, "  mkSite %s %s %s %s %s [%s] %s%s\n", CoqString(s.root), CoqString(s.fn), CoqString(s.pos), s.kind, lgHeldCoq(s.held), strings.Join(fs, "; "), lgHeldCoq(s.pre), sep)
+		fmt.Fprintf(&b, "  mkSite %s %s %s %s %s [%s] %s %s%s\n", CoqString(s.root), CoqString(s.fn), CoqString(s.pos), s.kind, lgHeldCoq(s.held), strings.Join(fs, "; "), lgHeldCoq(s.pre), lgHeldCoq(s.undeferred), sep)
 	}
 	b.WriteString("Definition sites : list site := ")
 	for i := 0; i < nchunks; i++ {
